@@ -104,7 +104,8 @@ LEVEL_TEXT = ('Machine-checked theorems, for trees, names, elements and virtual 
               'earlier segments; the memo of _join_path_tuple is transparent unless it is keyed on the raw tuple AND the second '
               'tuple holds a non-str non-bytes object printing differently -- refuted by the witness 1 / True (repaired finding); '
               'for the code as it is (no memo: regenerated fact) the second call is history-free unconditionally, and '
-              'resource_path(r, *elements) is the path of the descendant the elements name, to which find_resource leads back.')
+              'resource_path(r, *elements) is the path of the descendant the elements name, to which find_resource leads back; '
+              'inside a virtual root resource_url(r, *elements) + "/" is resource_url of that descendant, which traverses back to it.')
 LEVEL_NOTE = ('Trusted: Coq kernel; the translator\'s primitive table and the reference model\'s primitives (validated by '
               'correspondence); ResourceURL.__init__ and the url.py glue hand-modelled and pinned; webob / urllib modelled or '
               'oracle; Python harness.  A semantics-preserving rewrite of a translated function raises no alarm; a semantic '
